@@ -314,6 +314,15 @@ def check_declaration(meta, case):
         if case.get("desc"):
             values = values[::-1]
     stats = check_enum(E, _declared(members), values, case)
+    if case["kind"] == "seq":
+        # a second class with the SAME module, name and members (what a module reload or a regenerated
+        # package produces) must be served by its own instances, not by the first class' ones
+        try:
+            twin = build_enum(meta, members, case.get("style", "meta"))
+        except Exception:  # noqa: BLE001
+            twin = None
+        if twin is not None:
+            check_enum(twin, _declared(members), values, dict(case, twin=True))
     if sibling is not None:
         # and the constructions on E must not have disturbed the sibling either
         for step, v in enumerate(values):
